@@ -25,6 +25,38 @@ let () =
         (* set_error_bits(code): errorCode |= code | COLVARS_ERROR, from one thread per code *)
         let codes = List.map (fun s -> Z.coq_lor (z_of_int (int_of_string s)) (z_of_int 1)) (List.tl (Array.to_list w)) in
         Printf.printf "ERRBITS %d\n" (int_of_z (or_codes codes))
+      end else if Array.length w > 0 && w.(0) = "FOOT" then begin
+        (* FOOT t nv {tsf nc flag*nc coeff*nc}*nv nb {tsf nbv v*nbv k c*nbv}*nb use after nsc {v f}*nsc : the model's footprint table *)
+        let p = ref 1 in
+        let next () = let s = w.(!p) in Stdlib.incr p; s in
+        let ni () = int_of_string (next ()) in
+        let nb () = ni () <> 0 in
+        let t = ni () in
+        let nv = ni () in
+        let vars = List.init nv (fun _ ->
+            let tsf = ni () in let nc = ni () in
+            let fl = List.init nc (fun _ -> nb ()) in
+            let coeff = List.init nc (fun _ -> z_of_int (ni ())) in
+            { v_tsf = nat_of_int tsf; v_flags = fl; v_pending = []; v_coeff = coeff }) in
+        let nbias = ni () in
+        let biases = List.init nbias (fun _ ->
+            let tsf = ni () in let nbv = ni () in
+            let vs = List.init nbv (fun _ -> nat_of_int (ni ())) in
+            let k = z_of_int (ni ()) in
+            let cs = List.init nbv (fun _ -> z_of_int (ni ())) in
+            { b_tsf = nat_of_int tsf; b_vars = vs; b_k = k; b_centers = cs }) in
+        let use_script = nb () in let after = nb () in
+        let nsc = ni () in
+        let script = List.init nsc (fun _ -> let v = ni () in let f = ni () in (nat_of_int v, z_of_int f)) in
+        let c = { c_vars = vars; c_biases = biases; c_use_script = use_script; c_script_after = after; c_script = script } in
+        let i = int_of_nat in
+        let loc l = match l with
+          | LIn (v, k) -> Printf.sprintf "LIn:%d:%d" (i v) (i k) | LCvc (v, k) -> Printf.sprintf "LCvc:%d:%d" (i v) (i k)
+          | LX v -> Printf.sprintf "LX:%d" (i v) | LFb v -> Printf.sprintf "LFb:%d" (i v) | LF v -> Printf.sprintf "LF:%d" (i v)
+          | LBiasE b -> Printf.sprintf "LBiasE:%d" (i b) | LBiasF (b, k) -> Printf.sprintf "LBiasF:%d:%d" (i b) (i k) | LEnergy -> "LEnergy" in
+        let fps l = String.concat " | " (List.map (fun (r, wr) -> "R=" ^ String.concat "," (List.map loc r) ^ " W=" ^ String.concat "," (List.map loc wr)) l) in
+        let tn = nat_of_int t in
+        Printf.printf "COMP %s ; COLLECT %s ; BIAS %s\n" (fps (model_comp_fps c tn)) (fps (model_collect_fps c tn)) (fps (model_bias_fps c tn))
       end else if Array.length w > 0 then begin
         let p = ref 1 in
         let next () = let s = w.(!p) in Stdlib.incr p; s in
